@@ -108,6 +108,9 @@ def run_worker(binary, sub, spec, seed, worker, outdir, knownfile, tier):
            "--out", outdir, "--worker", str(worker), "--known", knownfile]
     if "max_seconds" in cfg:
         cmd += ["--max-seconds", str(cfg["max_seconds"])]
+    cmd += ["--workers", str(cfg.get("workers", 1))]
+    for k, v in cfg.get("params", {}).items():
+        cmd += ["--param", "%s=%s" % (k, v)]
     env = dict(os.environ)
     env["ASAN_OPTIONS"] = "detect_leaks=%d:abort_on_error=1:handle_abort=%d:allocator_may_return_null=1:detect_stack_use_after_return=0:malloc_context_size=4%s" % (
         1 if spec.get("leaks") else 0, 1 if engine == "fuzz" else 0, spec.get("asan_extra", ""))
